@@ -196,6 +196,14 @@ PARTS = {
                                  {("rejected-add" if e["op"].get("ret", "").startswith("err") else "") for e in events}
                                  | {("replaced" if e["op"]["o"] in ("response_in",) and i > 0 and any(r[0] in {x[0] for x in events[i - 1]["obs"]["table"]} and r[1] not in {x[1] for x in events[i - 1]["obs"]["table"]} for r in e["obs"]["table"]) else "") for i, e in enumerate(events)}
                                  | {("removed" if i > 0 and len(e["obs"]["table"]) < len(events[i - 1]["obs"]["table"]) and e["op"]["o"] != "reset" else "") for i, e in enumerate(events)}]),
+    "svc_vote": _svc_common({"C17.NotByPong": "C17", "C17.BelowMinimum": "C17", "C17.NoClearMajority": "C17", "C17.SeqNotIncreased": "C17",
+                             "C17.InvalidSignature": "C17", "C17.NotAnnounced": "C17"},
+        spec="MC_IpVote.tla", mc={"quick": ["MC_IpVote.cfg"], "thorough": ["MC_IpVote.cfg", "MC_IpVote_5.cfg"]},
+        sim={"quick": [dict(cfg="MC_IpVote_sim_ip4.cfg", num=120, depth=40), dict(cfg="MC_IpVote_sim_dual.cfg", num=60, depth=40)],
+             "thorough": [dict(cfg="MC_IpVote_sim_ip4.cfg", num=2500, depth=70), dict(cfg="MC_IpVote_sim_dual.cfg", num=1200, depth=70)]},
+        required=lambda events: [n for n in ["SocketUpdated", "second-update"] if n not in
+                                 {("SocketUpdated" if any(x["e"] == "SocketUpdated" for x in e["obs"]["ev"]) else "") for e in events}
+                                 | {("second-update" if e["obs"]["local"]["seq"] >= 3 else "") for e in events}]),
     "svc_serve": _svc_common({"C14.NoAnswer": "C14", "C14.WrongIdOrPeer": "C14", "C14.Total": "C14", "C14.TooBig": "C14", "C14.OwnRecord": "C14",
                               "C14.ForeignRecord": "C14", "C14.Missing": "C14", "C14.TooManyOrDuplicate": "C14", "C14.Pong": "C14"},
         spec="MC_Serve.tla", mc={"quick": ["MC_Serve.cfg"], "thorough": ["MC_Serve_9.cfg", "MC_Serve_17.cfg"]},
@@ -303,6 +311,7 @@ PROPS = {
     "C11": dict(parts=[dict(name="svc_nodes")]),
     "C12": dict(parts=[dict(name="svc_table"), dict(name="handler", mc={"quick": [], "thorough": ["MC_Handler_tiny.cfg"]})]),
     "C14": dict(parts=[dict(name="svc_serve")]),
+    "C17": dict(parts=[dict(name="svc_vote")]),
     "C20": dict(parts=[dict(name="svc_talk")]),
     "C15": dict(parts=[dict(name="lru"), dict(name="handler", mc={"quick": [], "thorough": ["MC_Handler_time.cfg"]})]),
     "C16": dict(parts=[dict(name="kb", mc={"quick": ["MC_KBuckets_c16.cfg", "MC_KBuckets_c16b.cfg"],
